@@ -16,8 +16,12 @@ CONSTANTS Site,        \* "config" | "field" | "codec"
           WithField,   \* TRUE: discriminator has a field
           Supertypes,  \* include_supertypes
           MaxLen,
+          RegMode,
           Walk         \* "recursive" (what the documentation promises) | "direct" (deviant: direct subclasses only)
-VARIABLES defined, registry, decoder, hist, last
+VARIABLES defined, registry, registry2, decoder, hist, last
+\* Site = "pair": ONE field  f: Tuple[Annotated[R, D], Annotated[R2, D]]  with two EQUAL discriminators over two
+\* different hierarchies that share a tag ("a"): each position must resolve inside its own hierarchy (registry / registry2).
+\* RegMode = "perposition" (each discriminated position owns its tag map) | "shared" (deviant: one map for equal discriminators)
 
 DOpts == (IF WithField THEN << <<"field", "type">> >> ELSE <<>>)
          \o << <<"include_subtypes", TRUE>> >> \o (IF Supertypes THEN << <<"include_supertypes", TRUE>> >> ELSE <<>>)
@@ -33,13 +37,20 @@ CA  == Sub("A", Root, <<Req("x")>>, "a")
 CB  == Sub("B", Root, <<Req("y")>>, "b")
 CA1 == Sub("A1", CA, <<Req("z")>>, "a1")
 CX  == Sub("X", Root, <<Req("w")>>, "")          \* no tag in its own namespace: not eligible by tag
-Candidates == {CA, CB, CA1, CX}
+Root2 == <<"dc", "R2", RootFields, CV("r2")>>
+Sub2(name, extra, tag) == <<"dc", name, RootFields \o extra, << <<"bases", <<Root2>> >> >> \o CV(tag)>>
+CA2 == Sub2("A2", <<Req("x")>>, "a")
+CC2 == Sub2("C2", <<Req("y")>>, "c")
+Candidates == IF Site = "pair" THEN {CA, CB, CA2, CC2} ELSE {CA, CB, CA1, CX}
 
-HolderT == <<"dc", "HD", << <<"f", <<"discr", Root, DOpts>>, <<"req">>, <<>> >> >>, <<>> >>
+HolderT == IF Site = "pair"
+           THEN <<"dc", "HD", << <<"f", <<"tuple", << <<"discr", Root, DOpts>>, <<"discr", Root2, DOpts>> >> >>, <<"req">>, <<>> >> >>, <<>> >>
+           ELSE <<"dc", "HD", << <<"f", <<"discr", Root, DOpts>>, <<"req">>, <<>> >> >>, <<>> >>
 
 Body(t) == << <<S("v"), I(0)>>, <<S("x"), I(1)>>, <<S("y"), I(2)>>, <<S("z"), I(3)>>, <<S("w"), I(4)>> >>
            \o (IF t = "" THEN <<>> ELSE << <<S("type"), S(t)>> >>)
-Inputs == IF WithField
+PairInputs == { L(<<Dct(Body(t1)), Dct(Body(t2))>>) : t1 \in {"a", "b", "c", "zz"}, t2 \in {"a", "b", "c", "zz"} }
+Inputs == IF Site = "pair" THEN PairInputs ELSE IF WithField
           THEN { Dct(Body(t)) : t \in {"a", "b", "a1", "r", "zz", ""} } \cup { Dct(<< <<S("type"), I(5)>> >>) }
                \cup (IF Site # "codec" THEN { None, L(<<>>), Dct(<< <<S("v"), I(0)>>, <<S("type"), L(<<>>)>> >>) } ELSE {})
           ELSE { Dct(<< <<S("v"), I(0)>>, <<S("x"), I(1)>> >>), Dct(<< <<S("v"), I(0)>>, <<S("x"), I(1)>>, <<S("z"), I(3)>> >>),
@@ -48,18 +59,33 @@ Inputs == IF WithField
 
 Cx == DefaultCx
 \* what any completed Deserialize must return now (abstract, history-free)
+PairOf(r1, r2, j) == IF IsOk(r1) /\ IsOk(r2) THEN Ok(<<"obj", "HD", << <<"tuple", <<r1[2], r2[2]>> >> >> >>) ELSE Err(<<"Invalid", "f", j, "HD">>)
 Outcome(j) ==
-  CASE Site = "config" -> UnpackDiscr(defined, Root, DOpts, Cx, j)
+  CASE Site = "pair" -> PairOf(UnpackDiscr(defined, Root, DOpts, Cx, j[2][1]), UnpackDiscr(defined, Root2, DOpts, Cx, j[2][2]), j)
+    [] Site = "config" -> UnpackDiscr(defined, Root, DOpts, Cx, j)
     [] Site = "codec"  -> UnpackDiscr(defined, Root, DOpts, Cx, j)
     [] Site = "field"  -> LET r == UnpackDiscr(defined, Root, DOpts, Cx, j) IN
                           IF IsOk(r) THEN Ok(<<"obj", "HD", <<r[2]>> >>) ELSE Err(<<"Invalid", "f", j, "HD">>)
 
 \* ---- implementation-level registry: tag -> class name, filled lazily by walking the subclasses
-WalkSubs == IF Walk = "recursive" THEN SubsDFS(defined, "R") ELSE SelectSeq(defined, LAMBDA C : ParentName(C) = "R")
-WalkEligible == WalkSubs \o (IF Supertypes THEN <<Root>> ELSE <<>>)
-Refilled == LET el == WalkEligible IN
-            { <<OwnTag(el[i], "type"), el[i][2]>> : i \in { k \in DOMAIN el : OwnTag(el[k], "type") # <<"#notag">> } }
 RegLookup(reg, t) == IF \E p \in reg : p[1] = t THEN (CHOOSE p \in reg : p[1] = t)[2] ELSE "#miss"
+WalkSubsOf(rn) == IF Walk = "recursive" THEN SubsDFS(defined, rn) ELSE SelectSeq(defined, LAMBDA C : ParentName(C) = rn)
+WalkSubs == WalkSubsOf("R")
+WalkEligible == WalkSubs \o (IF Supertypes THEN <<Root>> ELSE <<>>)
+RefilledOf(el) == { <<OwnTag(el[i], "type"), el[i][2]>> : i \in { k \in DOMAIN el : OwnTag(el[k], "type") # <<"#notag">> } }
+Refilled == RefilledOf(WalkEligible)
+Refilled2 == RefilledOf(WalkSubsOf("R2"))
+AllDefined == <<Root, Root2>> \o defined
+\* one discriminated position resolved THROUGH a registry (hit, else refill from its own hierarchy and look again)
+PosResult(reg, refill, j) ==
+  IF j[1] # "dict" THEN Err(<<"ValueError">>)
+  ELSE IF ~PairsHas(j[2], S("type")) THEN Err(<<"MissingDiscr", "type">>)
+  ELSE LET t == PairsGet(j[2], S("type"))
+           reg2 == IF RegLookup(reg, t) = "#miss" THEN reg \cup refill ELSE reg
+           n == RegLookup(reg2, t) IN
+       IF n = "#miss" THEN Err(<<"NoVariant">>) ELSE FromDict(ByName(AllDefined, n), Cx, j)
+PosReg(reg, refill, j) ==
+  IF j[1] = "dict" /\ PairsHas(j[2], S("type")) /\ RegLookup(reg, PairsGet(j[2], S("type"))) = "#miss" THEN reg \cup refill ELSE reg
 \* result computed THROUGH the registry (hit, else refill and look again)
 ImplResult(j) ==
   IF ~WithField THEN
@@ -71,7 +97,16 @@ ImplResult(j) ==
            reg2 == IF RegLookup(registry, t) = "#miss" THEN Refilled ELSE registry
            n == RegLookup(reg2, t) IN
        IF n = "#miss" THEN Err(<<"NoVariant">>) ELSE FromDict(ByName(<<Root>> \o defined, n), Cx, j)
-ImplWrapped(j) == IF Site # "field" THEN ImplResult(j)
+\* the pair site: position 1 then position 2; in the deviant "shared" mode both positions read and fill ONE map
+PairImpl(j) ==
+  LET j1 == j[2][1] j2 == j[2][2]
+      regA == registry
+      r1 == PosResult(regA, Refilled, j1)
+      regA1 == PosReg(regA, Refilled, j1)
+      regB == IF RegMode = "shared" THEN regA1 ELSE registry2
+      r2 == PosResult(regB, Refilled2, j2)
+  IN PairOf(r1, r2, j)
+ImplWrapped(j) == IF Site = "pair" THEN PairImpl(j) ELSE IF Site # "field" THEN ImplResult(j)
                   ELSE LET r == ImplResult(j) IN IF IsOk(r) THEN Ok(<<"obj", "HD", <<r[2]>> >>) ELSE Err(<<"Invalid", "f", j, "HD">>)
 
 \* without a field the statement does not fix the order among accepting subclasses
@@ -80,19 +115,25 @@ AcceptableNames(j) == IF WithField THEN <<>>
                            IF subs # <<>> THEN [i \in DOMAIN subs |-> subs[i][2]]
                            ELSE IF Supertypes /\ IsOk(FromDict(Root, Cx, j)) THEN <<"R">> ELSE <<>>
 
-Init == /\ defined = <<>> /\ registry = {} /\ decoder = (Site # "codec") /\ hist = <<>> /\ last = <<"none">>
+Init == /\ defined = <<>> /\ registry = {} /\ registry2 = {} /\ decoder = (Site # "codec") /\ hist = <<>> /\ last = <<"none">>
 
 Define(c) == /\ ~IsDefined(defined, c[2])
              /\ ParentName(c) = "R" \/ IsDefined(defined, ParentName(c))
              /\ defined' = Append(defined, c)
              /\ hist' = Append(hist, <<"Define", c>>)
-             /\ UNCHANGED <<registry, decoder>> /\ last' = <<"define">>
+             /\ UNCHANGED <<registry, registry2, decoder>> /\ last' = <<"define">>
 CreateDecoder == /\ ~decoder /\ decoder' = TRUE /\ hist' = Append(hist, <<"CreateDecoder">>)
-                 /\ UNCHANGED <<defined, registry>> /\ last' = <<"create">>
+                 /\ UNCHANGED <<defined, registry, registry2>> /\ last' = <<"create">>
 Deser(j) ==
   /\ decoder
-  /\ LET t == IF WithField /\ j[1] = "dict" /\ PairsHas(j[2], S("type")) THEN PairsGet(j[2], S("type")) ELSE <<"#none">> IN
-     registry' = IF WithField /\ t # <<"#none">> /\ RegLookup(registry, t) = "#miss" THEN Refilled ELSE registry
+  /\ IF Site = "pair"
+     THEN LET regA1 == PosReg(registry, Refilled, j[2][1]) IN
+          IF RegMode = "shared"
+          THEN registry' = PosReg(regA1, Refilled2, j[2][2]) /\ registry2' = registry2
+          ELSE registry' = regA1 /\ registry2' = PosReg(registry2, Refilled2, j[2][2])
+     ELSE /\ registry2' = registry2
+          /\ LET t == IF WithField /\ j[1] = "dict" /\ PairsHas(j[2], S("type")) THEN PairsGet(j[2], S("type")) ELSE <<"#none">> IN
+             registry' = IF WithField /\ t # <<"#none">> /\ RegLookup(registry, t) = "#miss" THEN Refilled ELSE registry
   /\ hist' = Append(hist, <<"Deserialize", j, Outcome(j), AcceptableNames(j)>>)
   /\ last' = <<"deser", ImplWrapped(j), Outcome(j)>>
   /\ UNCHANGED <<defined, decoder>>
@@ -106,11 +147,11 @@ Next == /\ Len(hist) < MaxLen
 \* the lazy registry implements the abstract choice under every interleaving (VariantChoice)
 VariantChoice == last[1] = "deser" => last[2] = last[3]
 \* the registry only ever maps a tag to an eligible defined class carrying that tag (RegistrySound)
-RegistrySound == \A p \in registry : IsDefined(<<Root>> \o defined, p[2]) /\ OwnTag(ByName(<<Root>> \o defined, p[2]), "type") = p[1]
+RegistrySound == \A p \in registry \cup registry2 : IsDefined(AllDefined, p[2]) /\ OwnTag(ByName(AllDefined, p[2]), "type") = p[1]
 \* a class without its own tag is never chosen by tag
-NoInheritedTag == (WithField /\ last[1] = "deser" /\ IsOk(last[3])) =>
+NoInheritedTag == (WithField /\ Site # "pair" /\ last[1] = "deser" /\ IsOk(last[3])) =>
                     LET o == IF Site = "field" THEN last[3][2][3][1] ELSE last[3][2] IN o[2] # "X"
 
 EmitInv == (Len(hist) = MaxLen \/ ~ENABLED Next) => PrintT(ToJson(<<"beh", hist>>))
-View == <<defined, registry, decoder, hist>>
+View == <<defined, registry, registry2, decoder, hist>>
 =============================================================================
